@@ -58,7 +58,8 @@ def random_cases(ctx, count):
 X = "rand_xoshiro::Xoshiro256Plus"
 ISO = {
     "linfa": ("", ["linfa"], {
-        "Error": ["linfa::Error"], "Error.NdShape": ["linfa::Error"],
+        "Error": ["linfa::Error"], "Error.NdShape": ["linfa::Error"], "Error.api": ["linfa::Error"], "Error.sweep": ["linfa::Error"],
+        "PlattError.sweep": ["linfa::composing::platt_scaling::PlattError"],
         "PlattError": ["linfa::composing::platt_scaling::PlattError"]}),
     "linfa-nn": ("algorithms/linfa-nn", [], {
         "L1Dist": ["linfa_nn::distance::L1Dist"], "L2Dist": ["linfa_nn::distance::L2Dist"],
@@ -88,7 +89,7 @@ ISO = {
         "TweedieRegressorValidParams": ["linfa_linear::TweedieRegressorValidParams<f64>"],
         "TweedieRegressor": ["linfa_linear::TweedieRegressor<f32>", "linfa_linear::TweedieRegressor<f64>"]}),
     "linfa-elasticnet": ("algorithms/linfa-elasticnet", [], {
-        "ElasticNetError": ["linfa_elasticnet::ElasticNetError"],
+        "ElasticNetError": ["linfa_elasticnet::ElasticNetError"], "ElasticNetError.sweep": ["linfa_elasticnet::ElasticNetError"],
         "ElasticNetValidParams": ["linfa_elasticnet::ElasticNetValidParams<f64>"],
         "ElasticNet": ["linfa_elasticnet::ElasticNet<f32>", "linfa_elasticnet::ElasticNet<f64>"],
         "MultiTaskElasticNetValidParams": ["linfa_elasticnet::MultiTaskElasticNetValidParams<f32>"],
@@ -117,7 +118,7 @@ ISO = {
         "GaussianNbValidParams": ["linfa_bayes::GaussianNbValidParams<f64, usize>"], "GaussianNb": ["linfa_bayes::GaussianNb<f32, usize>", "linfa_bayes::GaussianNb<f64, String>"],
         "MultinomialNbValidParams": ["linfa_bayes::MultinomialNbValidParams<f32, usize>"], "MultinomialNb": ["linfa_bayes::MultinomialNb<f64, usize>"]}),
     "linfa-ftrl": ("algorithms/linfa-ftrl", ["linfa", "rand_xoshiro"], {
-        "FtrlError": ["linfa_ftrl::FtrlError"], "FtrlParams": ["linfa_ftrl::FtrlParams<f32, %s>" % X, "linfa_ftrl::FtrlParams<f64, %s>" % X],
+        "FtrlError": ["linfa_ftrl::FtrlError"], "FtrlError.sweep": ["linfa_ftrl::FtrlError"], "FtrlParams": ["linfa_ftrl::FtrlParams<f32, %s>" % X, "linfa_ftrl::FtrlParams<f64, %s>" % X],
         "FtrlValidParams": ["<linfa_ftrl::FtrlParams<f64, %s> as linfa::ParamGuard>::Checked" % X],
         "Ftrl": ["linfa_ftrl::Ftrl<f32>", "linfa_ftrl::Ftrl<f64>"]}),
     "linfa-pls": ("algorithms/linfa-pls", [], {
@@ -260,6 +261,18 @@ def run(ctx):
                 elif lay.get(e["key"]) != e["d"]:
                     diff = True
         relaid += diff
+    # vacuity guard for the structural sweep of the error enums: the number of variant indices that produced a
+    # value must at least be the number of serialisable variants known when the check was written
+    present = {}
+    for t in traces:
+        if t["kind"] == "sweep" and not any(e.get("ev") == "absent" for e in t["ev"]):
+            present.setdefault(t["inp"]["type"], set()).add(t["inp"]["var"])
+    need = {"Error.sweep": 5, "PlattError.sweep": 11, "ElasticNetError.sweep": 13, "FtrlError.sweep": 11}
+    ctx.extra["error_variants_reached_by_the_sweep"] = {k: len(v) for k, v in sorted(present.items())}
+    if not getattr(ctx, "replaying", False):
+        for k, n in need.items():
+            if len(present.get(k, ())) < n:
+                raise vlib.ToolError("structural sweep of %s reached only %d variants (expected >= %d)" % (k, len(present.get(k, ())), n))
     wide = sum(1 for c in cases if c["inp"].get("wide", 0) >= 1)
     ctx.extra["wide_cases_8_to_12_features"] = wide
     ctx.extra["cases_whose_matrix_layout_changes_in_a_round_trip"] = relaid
